@@ -146,6 +146,11 @@ def make(n, with_undefined=True, dupmodes=("none", "literal", "respelled"), dup_
                         holder["roots"] = ctx.task_index.validate_all_loaded_tasks()
                     except ConductorError as ex:
                         holder["error"] = type(ex).__name__
+                    # the explorer keeps one index and validates again on the next request
+                    try:
+                        holder["roots2"] = ctx.task_index.validate_all_loaded_tasks()
+                    except ConductorError as ex:
+                        holder["error2"] = type(ex).__name__
                 res = hrun.invoke(whole, None, str(proj.root), fakeos.Kernel(LsSched()))
                 if isinstance(res.status, str):
                     g.require(False, "graph:crash:" + res.status, "whole-project validation: %r; %s" % (res.exc, D))
@@ -156,6 +161,11 @@ def make(n, with_undefined=True, dupmodes=("none", "literal", "respelled"), dup_
                     want_err.add("CyclicDependency")
                 if any_dang:
                     want_err.add("TaskNotFound")
+                g.require(("error" in holder) == ("error2" in holder) and
+                          sorted(map(str, holder.get("roots", []))) == sorted(map(str, holder.get("roots2", []))),
+                          "graph:whole-project-validation-not-repeatable",
+                          "first validation: %s, second on the same index: %s; %s" % (
+                              holder.get("error") or holder.get("roots"), holder.get("error2") or holder.get("roots2"), D))
                 if want_err:
                     g.require(holder.get("error") in want_err, "graph:whole-project-accepts-bad-graph",
                               "validate_all_loaded_tasks: %s, expected one of %s; %s" % (holder.get("error") or holder.get("roots"), sorted(want_err), D))
